@@ -132,7 +132,10 @@ func (r *gatewayController) buildDesiredHTTPRoute(rules []gatewayv1beta1.HTTPRou
 	if weight != nil && *weight == -1 {
 		for i := range rules {
 			rule := rules[i]
-			filterOutServiceBackendRef(&rule, r.conf.CanaryService)
+			// without a generated canary Service (TrafficRouting object) the canary Service IS the stable one
+			if r.conf.CanaryService != r.conf.StableService {
+				filterOutServiceBackendRef(&rule, r.conf.CanaryService)
+			}
 			_, stableRef := getServiceBackendRef(rule, r.conf.StableService)
 			if stableRef != nil {
 				stableRef.Weight = utilpointer.Int32(1)
